@@ -180,8 +180,10 @@ def san_env(cfg="asan"):
 class Unit:
     """One harness process of a check run."""
 
-    def __init__(self, name, argv, env=None, timeout=1800, group=None, cwd=None):
+    def __init__(self, name, argv, env=None, timeout=1800, group=None, cwd=None, artifact_prefix=None, corpus_dir=None):
         self.name, self.argv, self.env, self.timeout = name, argv, env or {}, timeout
+        self.artifact_prefix = artifact_prefix   # libFuzzer units
+        self.corpus_dir = corpus_dir
         self.group = group or name
         self.cwd = cwd
         self.report = None
@@ -293,7 +295,26 @@ class Result:
                 f = dict(f)
                 f["unit"] = u.name
                 self.failures.append(f)
-            if u.rc != 0 and not rep.get("failures"):
+            if u.artifact_prefix:
+                # libFuzzer unit: statistics from its own output, crashes from its artifacts
+                import re
+                mm = re.search(r"stat::number_of_executed_units:\s*(\d+)", u.output)
+                if mm:
+                    info["libfuzzer_execs"] = int(mm.group(1))
+                if u.corpus_dir and os.path.isdir(u.corpus_dir):
+                    info["corpus_units"] = len(os.listdir(u.corpus_dir))
+                arts = sorted(glob.glob(u.artifact_prefix + "crash-*") + glob.glob(u.artifact_prefix + "leak-*"), key=os.path.getmtime)
+                noise = glob.glob(u.artifact_prefix + "timeout-*") + glob.glob(u.artifact_prefix + "oom-*") + glob.glob(u.artifact_prefix + "slow-unit-*")
+                for n in noise:
+                    os.unlink(n)
+                if u.rc != 0 and not rep.get("failures"):
+                    if arts:
+                        self.failures.append({"sig": "crash:sanitizer:" + u.group, "replay": arts[-1], "msg": u.output[-4000:], "unit": u.name})
+                    elif noise or u.rc == -999:
+                        self.inconclusive += 1
+                    else:
+                        self.broken.append("fuzz unit %s ended rc=%s without artifact\n%s" % (u.name, u.rc, u.output[-2000:]))
+            elif u.rc != 0 and not rep.get("failures"):
                 # crashed (sanitizer / trap / abort) without recording a failure itself
                 self.failures.append({"sig": "crash:rc=%s" % u.rc, "replay": rep.get("current_case", ""),
                                       "msg": u.output[-4000:], "unit": u.name, "crash": True})
@@ -377,6 +398,24 @@ class Result:
         print("OK property=%s tier=%s seed=%s evaluations=%d distinct_nontrivial=%d wall=%.1fs" % (
             self.prop, self.tier, self.seed, self.evaluations, self.nontrivial, time.time() - self.t0), flush=True)
         return 0
+
+
+def fuzz_unit(name, binary, prop, seed, runs, max_len=4096, seeds=(), dict_file=None, group=None, env=None, timeout=3600,
+              extra=(), len_control=None):
+    """A libFuzzer campaign as a Unit: fresh corpus dir (scratch), read-only seed dirs, fixed -seed/-runs."""
+    cdir = os.path.join(BUILD, "scratch", "corpus-%s-%d" % (name, os.getpid()))
+    shutil.rmtree(cdir, ignore_errors=True)
+    os.makedirs(cdir, exist_ok=True)
+    prefix = os.path.join(replay_dir(prop), name + ".")
+    argv = [binary, cdir] + [d for d in seeds if os.path.isdir(d) and os.listdir(d)]
+    argv += ["-seed=%d" % (seed if seed else 1), "-runs=%d" % runs, "-max_len=%d" % max_len, "-artifact_prefix=" + prefix,
+             "-print_final_stats=1", "-timeout=120", "-rss_limit_mb=6000", "-verbosity=0", "-use_value_profile=1"]
+    if len_control is not None:
+        argv.append("-len_control=%d" % len_control)
+    if dict_file and os.path.exists(dict_file):
+        argv.append("-dict=" + dict_file)
+    argv += list(extra)
+    return Unit(name, argv, env=env, timeout=timeout, group=group or name, artifact_prefix=prefix, corpus_dir=cdir)
 
 
 def sig_match(pattern, sig):
